@@ -441,6 +441,13 @@ func TestC11(t *testing.T) {
 		// variables in and out of namespaces
 		c.Vars = append(c.Vars, varBinding{Local: "n", T: "num", Num: fmtFloat(genFloat(t, "n"))}, varBinding{Local: "s", T: "str", Str: genString(t, "s")})
 		env.NumVars, env.StrVars = []string{"n"}, []string{"s"}
+		// names beyond letters and digits: combining marks, extenders, the middle dot (all NCName characters)
+		for i, nm := range []string{"नाम", "cafe\u0301", "l\u00b7l", "ดี", "a\u0300\u0301", "x\u3005", "n-1.b_c"} {
+			if rapid.IntRange(0, 3).Draw(t, fmt.Sprintf("exoticVar%d", i)) == 0 {
+				c.Vars = append(c.Vars, varBinding{Local: nm, T: "num", Num: fmtFloat(float64(200 + i))})
+				env.NumVars = append(env.NumVars, nm)
+			}
+		}
 		for _, pf := range sortedKeys(ns) {
 			if rapid.Bool().Draw(t, "nsVar-"+pf) {
 				// two prefixes for one URI name the same variable
